@@ -103,6 +103,7 @@ func (h H) mixH(o H) H { return h.mix(o.A).mix(o.B) }
 type thread struct {
 	h       H // hash of this thread's last event (with its causal past)
 	id      int
+	creator int // id of the thread that spawned this one
 	name    string
 	lib     bool
 	wake    chan struct{}
@@ -225,6 +226,12 @@ const DefaultEpoch int64 = 1_700_000_000_000_000_000 // a multiple of 1e11 ns, s
 func Active() bool { return ex != nil }
 
 // Execute runs main as thread 0 under the scheduler and returns what happened.
+// execGen counts executions; shims that stand in for process-wide state (sync.Pool) use it to start
+// every execution from the same empty state.
+var execGen atomic.Uint64
+
+func ExecGen() uint64 { return execGen.Load() }
+
 func Execute(o Options, main func()) *Result {
 	if ex != nil {
 		panic("vrt: nested Execute")
@@ -236,6 +243,7 @@ func Execute(o Options, main func()) *Result {
 		o.Epoch = DefaultEpoch
 	}
 	e := &exec{o: o, locks: map[unsafe.Pointer]*lockSt{}, res: &Result{Trace: make([]Decision, 0, 128)}, now: o.Epoch, objH: map[uintptr]H{}, optBuf: make([]option, 0, 8)}
+	execGen.Add(1)
 	startWatchdog()
 	slotMu.Lock()
 	slots = map[uintptr][]any{}
@@ -1291,6 +1299,10 @@ func spawn(name string, lib bool, fn func()) *thread {
 		return nil
 	}
 	t := e.newThread(name, lib)
+	t.creator = -1
+	if e.cur != nil {
+		t.creator = e.cur.id
+	}
 	t.mail.kind = OpStart
 	if e.o.Verbose || e.o.LeakOracle {
 		t.mail.where = where(3)
@@ -1512,7 +1524,18 @@ func ExitUser() {
 
 // ThreadID returns the id of the running thread (-1 outside Execute).
 //
+// ThreadCreator returns the id of the thread that spawned thread id (-1 if unknown). Ids are
+// assigned in creation order.
+//
 //go:norace
+//go:norace
+func ThreadCreator(id int) int {
+	if ex == nil || id < 0 || id >= len(ex.threads) {
+		return -1
+	}
+	return ex.threads[id].creator
+}
+
 func ThreadID() int {
 	if ex == nil || ex.cur == nil {
 		return -1
